@@ -218,10 +218,14 @@ func (r *Raft) onTakeSnapshot(t takeSnapshot) {
 		t.reply(InProgressError("takeSnapshot"))
 		return
 	}
-	r.snapTakenCh = make(chan snapTaken, 1)
 	// ask the fsm from this goroutine: the request is then ordered right after
-	// the applies queued so far, so the snapshot is taken at r.commitIndex,
-	// the index whose configuration r.configs.Committed is
+	// the applies queued so far, so the snapshot is taken at r.commitIndex
+	config, err := r.configAt(r.commitIndex)
+	if err != nil {
+		t.reply(err)
+		return
+	}
+	r.snapTakenCh = make(chan snapTaken, 1)
 	snapIndex, _ := r.snaps.latest()
 	req := fsmSnapReq{task: newTask(), index: snapIndex + t.threshold}
 	r.fsm.ch <- req
@@ -235,7 +239,38 @@ func (r *Raft) onTakeSnapshot(t takeSnapshot) {
 			meta: meta,
 			err:  err,
 		}
-	}(r.configs.Committed)
+	}(config)
+}
+
+// configAt returns the configuration in force at the given committed index:
+// the newest configuration entry at or below it.
+func (r *Raft) configAt(index uint64) (Config, error) {
+	if r.configs.Latest.Index <= index {
+		return r.configs.Latest, nil
+	}
+	if r.configs.Committed.Index <= index {
+		return r.configs.Committed, nil
+	}
+	// a follower can store two configuration entries before it learns that
+	// the first of them is committed: then both are above index
+	for i := index; i > r.log.PrevIndex(); i-- {
+		e := &entry{}
+		if err := r.storage.getEntry(i, e); err != nil {
+			return Config{}, opError(err, "Log.Get(%d)", i)
+		}
+		if e.typ == entryConfig {
+			config := Config{}
+			if err := config.decode(e); err != nil {
+				return Config{}, opError(err, "Config.decode(%d)", i)
+			}
+			return config, nil
+		}
+	}
+	meta, err := r.snaps.meta()
+	if err != nil {
+		return Config{}, opError(err, "snapshots.meta")
+	}
+	return meta.config, nil
 }
 
 func doTakeSnapshot(fsm *stateMachine, req fsmSnapReq, config Config) (snapshotMeta, error) {
